@@ -1,5 +1,6 @@
 """C08 — unit names resolve deterministically: exact names first, then prefix+unit+plural."""
 from __future__ import annotations
+import logging
 
 from fractions import Fraction
 
@@ -24,7 +25,8 @@ def mutate(rng, s):
 class Check(Property):
     ID = "C08"
     PROPS_FILE = "PintModel/Props/C08.lean"
-    MODULE = "PintModel.Props.C08"
+    MODULE = "PintModel.Props.C08Sym"
+    EXTRA_PROPS_FILES = ["PintModel/Props/C08Sym.lean"]
     EXTRA_LEAN_FILES = []
     RULE = ("strings: every defined spelling; sampled prefix+spelling+plural concatenations (thorough: all 72x958x2); "
             "mutated spellings and random strings; case variants with case_sensitive=False; lookup histories "
@@ -184,10 +186,49 @@ class Check(Property):
         return c["s"] + "|" + str(c["cs"])
 
     # ------------------------------------------------------------------ oracle
+    def define_after_lookup_probe(self):
+        """a string that is a defined name, alias or symbol denotes that unit - also when the same string was asked for (and read
+        as prefix + unit + plural) before the definition was made: the answers equal those of a registry that got the definition
+        first"""
+        v = []
+        logging.disable(logging.CRITICAL)
+        try:
+            cases = [("mau", "mau = 3 * second"), ("inchs", "inchs = 5 * second"), ("kft", "blip08 = 7 * second = kft"),
+                     ("Mpc", "blop08 = 11 * second = _ = Mpc"), ("kilofoo08", "kilofoo08 = 13 * second"), ("pints", "pints = 17 * second")]
+            for spelling, definition in cases:
+                def answers(reg_):
+                    out = []
+                    for f in (lambda: reg_.get_name(spelling), lambda: str(reg_.parse_units(spelling)), lambda: reg_.get_symbol(spelling),
+                              lambda: str(reg_.Quantity(1, spelling).to_root_units()), lambda: str(getattr(reg_, spelling)),
+                              lambda: str(reg_.parse_expression("2 " + spelling).to_root_units())):
+                        try:
+                            out.append(f())
+                        except Exception as exc:  # noqa: BLE001
+                            out.append(type(exc).__name__)
+                    return out
+                late = regs.fresh("float")
+                before = answers(late)                 # (readings as prefix + unit + plural, or UndefinedUnitError)
+                spelling in late
+                late.define(definition)
+                first = regs.fresh("float")
+                first.define(definition)
+                got, want = answers(late), answers(first)
+                if got != want:
+                    v.append(f"C08 {spelling!r} asked before `{definition}` was defined (answers then: {before[:2]}): afterwards {got}, a registry "
+                             f"that got the definition first answers {want}")
+        finally:
+            logging.disable(logging.NOTSET)
+        return v
+
     def oracle(self, c):
         P = regs.pools()
         proj = P.proj
         v = []
+        if not getattr(self, "_dal_done", False):
+            self._dal_done = True
+            dv = self.define_after_lookup_probe()
+            if dv:
+                return dv
         if c["kind"] == "history":
             u = regs.fresh("fraction") if not hasattr(self, "_oreg") or self.rng.random() < 0.1 else self._oreg
             self._oreg = u
